@@ -873,6 +873,25 @@ def rule_r16(prog, res):
         res.ob('R16', where, '_get_type_info records the parent under %s' % [
             t for t, pol in atoms if 'len(' in t or '__extends__' in t],
             'VIOLATED' if own_only else 'ok')
+        from ..flow import entails, guards_at, flatten_guards
+        g = flatten_guards(guards_at(a, stop=f.node))
+        tests = [t for t, pol in atoms if 'len(' in t and '__extends__' in t]
+        needs_link = not own_only and (entails(
+            g, "len(base_types) > 0 or getattr(b, '__extends__', None) is "
+            "not None") or entails(
+            g, "len(base_types) > 0 or b.__extends__ is not None"))
+        res.ob('R16', where, '_get_type_info records a field-less root of a '
+               'class tree as parent: %s' % (not needs_link),
+               'VIOLATED' if needs_link else 'ok')
+        if needs_link:
+            res.finding('R16', '_get_type_info|fieldless-root-not-linked',
+                        where, 'a base is recorded as __extends__ only when '
+                        'it has fields of its own or extends something: with '
+                        'class Shape(ComplexModel): pass; class Circle(Shape) '
+                        'Circle.__extends__ is None, Shape has no subclasses '
+                        'and Circle is not registered, so a Circle sent where '
+                        'Shape is declared is refused (XML) or read back as '
+                        'an empty Shape (dict documents)')
         if own_only:
             res.finding('R16', '_get_type_info|parent-needs-own-fields',
                         where, 'a base is recorded as __extends__ only under '
@@ -1022,12 +1041,16 @@ MUTANTS = [
            'plain-cleanup'),
     Mutant('fieldless-parent-skipped', 'R16', 'fire', 'spyne/model/complex.py',
            in_func('_get_type_info',
-                   "            if (len(base_types) > 0 or\n                 "
-                   "     getattr(b, '__extends__', None) is not None) \\\n"
-                   "                                               and "
-                   "issubclass(b, ModelBase):",
+                   r"            if \(len\(base_types\) > 0 or\n(.*?)"
+                   r"and issubclass\(b, ModelBase\):",
                    "            if len(base_types) > 0 and issubclass(b, "
-                   "ModelBase):"), 'parent-needs-own-fields'),
+                   "ModelBase):", regex=True), 'parent-needs-own-fields'),
+    Mutant('fieldless-root-skipped', 'R16', 'fire', 'spyne/model/complex.py',
+           in_func('_get_type_info',
+                   r"getattr\(b, '__extends__', None\) is not None or\n"
+                   r"(.*?)for bb in b\.__bases__\)\)\) \\",
+                   "getattr(b, '__extends__', None) is not None) \\\\",
+                   regex=True), 'fieldless-root-not-linked'),
     Mutant('cleanup-without-root-declarations', 'R13', 'fire',
            'spyne/protocol/xml.py',
            in_func('XmlDocument._cleanup_namespaces',
